@@ -4,6 +4,7 @@ CONTRACT_MODULES = ["contracts.sorting", "contracts.refcount", "contracts.tasks"
 FUNCTIONS = ["Manager.mk_fun", "Manager.find_tasks", "Manager.find_taskids", "toposort"]
 RAC = "rac/c13.py"
 RAC_BUDGET = {"quick": 60, "thorough": 900}
+RAC_MIN = {"quick": 5387, "thorough": 5387}      # fewer run-time evaluations than this = the harness skipped its work: checker broken, not "held"
 DESIGN_REF = "DESIGN.md section 4, C13"
 TECHNIQUE = ("contract-based deductive verification of the structure of the generated source (pyvc: Manager.mk_fun against the proved "
              "find_tasks/toposort contracts, f-strings and joins as uninterpreted text functions; z3) + run-time translation validation: "
